@@ -88,6 +88,11 @@ func VH_C19_PostsKeptNewestFirst_sym() {
 	}
 	n2, err2 := f.Write(p2)
 	vAssert("posts_acknowledged", err1 == nil && err2 == nil && n1 == len(p1) && n2 == len(p2))
+	// two users posting at the same moment: what goes to disk must be written while the store's lock is held, or the
+	// older of two snapshots can land last and an acknowledged post is missing from the file
+	for _, op := range vfsLog {
+		vAssert("board_file_written_under_the_store_lock", op.locks > 0)
+	}
 	want := append(append(append([]byte(nil), p2...), p1...), old...)
 	vAssertEqBytes("memory_newest_first_all_kept", f.data, want)
 	i := vfs.find("/cfg/MessageBoard.txt")
@@ -181,4 +186,36 @@ func c19Reload(file []byte) {
 		want = '\r'
 	}
 	vAssert("reload_keeps_every_byte", f.data[k] == want)
+}
+
+// The agreement shown at login is the file's text with the configured line ending, at start-up and - the file not
+// having changed - just the same after a reload (SIGHUP / API): nothing of it is lost or altered by reloading.
+func VH_C19_AgreementSameAfterReload_sym() { c19AgreementReload(vBytes("file", 200)) }
+
+// the same for two fixed texts (several lines; Mac-Roman bytes), so that the outcome does not depend on what the
+// engine can say about string replacement over arbitrary text
+func VH_C19_AgreementSameAfterReloadFixedTexts_sym() {
+	if vBool("mac_roman_text") {
+		c19AgreementReload([]byte("caf\x8e \xa5 one line"))
+	} else {
+		c19AgreementReload([]byte("Welcome to the server.\nBe nice.\nNo warez.\n"))
+	}
+}
+
+func c19AgreementReload(file []byte) {
+	vfsReset()
+	vfs.put("/cfg/Agreement.txt", file)
+	a, err := NewAgreement("/cfg", "\r")
+	vAssert("agreement_loaded", err == nil && a != nil)
+	before := append([]byte(nil), a.data...)
+	vAssert("start_up_text_keeps_length", len(before) == len(file))
+	k := vInt("any_index")
+	vAssume(k >= 0 && k < len(file) && k < len(before))
+	want := file[k]
+	if want == '\n' {
+		want = '\r'
+	}
+	vAssert("start_up_text_is_the_file_with_the_line_ending", before[k] == want)
+	vAssert("reload_ok", a.Reload() == nil)
+	vAssertEqBytes("agreement_unchanged_by_reloading_an_unchanged_file", a.data, before)
 }
